@@ -9,6 +9,7 @@ import (
 
 	"github.com/arloliu/go-secs/v2/gem"
 	"github.com/arloliu/go-secs/v2/internal/pool"
+	"github.com/arloliu/go-secs/v2/internal/vhook"
 )
 
 // dropNotSelectedWarnInterval bounds how often the B3 not-selected drop is logged. The
@@ -206,6 +207,8 @@ func (c *connection) sendWaitReply(callerCtx context.Context, msg Message) (Mess
 		return nil, ErrNotOpen
 	}
 
+	vhook.At("hsms.send.afterLoadEpoch")
+
 	dm, isData := msg.(*DataMessage)
 
 	// A DATA message with the W-bit CLEAR is fire-and-forget on this synchronous path: it expects
@@ -230,6 +233,8 @@ func (c *connection) sendWaitReply(callerCtx context.Context, msg Message) (Mess
 		defer e.replies.deregister(key)
 	}
 
+	vhook.At("hsms.send.afterRegister")
+
 	// Synchronous writev == on-wire (§9.4.1.2). writeFrame runs the B2 write-boundary
 	// re-check under writeMu; ErrNotSelectedState from B2 is counted, non-fatal.
 	if err := c.writeFrame(callerCtx, e, msg); err != nil {
@@ -247,6 +252,8 @@ func (c *connection) sendWaitReply(callerCtx context.Context, msg Message) (Mess
 	// writeFrame), and no reply is expected. Return immediately — no inflight gauge (I1 is W-bit
 	// only), no timer, no select-block. This is also why a !W send records DataMsgSend+1 with
 	// DataMsgErr+0 (it never reaches a T3 timeout path).
+	vhook.At("hsms.send.afterWrite")
+
 	if fireAndForget {
 		return nil, nil //nolint:nilnil // fire-and-forget contract: a !W data send has no reply and no error once on the wire.
 	}
@@ -367,6 +374,7 @@ func (c *connection) drainSendCh(ctx context.Context, e *epoch) {
 	for {
 		select {
 		case req := <-e.sendCh:
+			vhook.At("hsms.drain.beforeWrite")
 			// A write error on the async path is non-fatal (best-effort fire-and-forget) but no
 			// longer silent: it is counted and, if a handler is installed, reported (Gap 4).
 			if err := c.writeFrame(ctx, e, req.msg); err != nil {
@@ -431,6 +439,8 @@ func (c *connection) SendAsync(ctx context.Context, msg Message) error {
 		c.dropNotSelected()
 		return ErrNotSelectedState
 	}
+
+	vhook.At("hsms.async.beforeEnqueue")
 
 	select {
 	case e.sendCh <- &sendRequest{msg: msg}:
